@@ -9,8 +9,12 @@ package c15
 import (
 	"archive/tar"
 	"bytes"
+	"compress/gzip"
+	"crypto/sha256"
+	"encoding/hex"
 	"encoding/json"
 	"fmt"
+	"hash"
 	"io"
 	"sort"
 	"strings"
@@ -443,6 +447,12 @@ type fileSpec struct {
 type layerSpec struct {
 	Annotation string // value of io.crossplane.xpkg ("" = not annotated)
 	Files      []fileSpec
+	// Forge: if set, the layer REPORTS the digest, diff id and size of the layer
+	// made of Files (that is what the image manifest pins) but SERVES the bytes
+	// of the layer made of Forge (a registry, pull-through cache or
+	// man-in-the-middle handing out a different blob). Like a registry client's
+	// reader, the served stream fails digest verification only when read to EOF.
+	Forge []fileSpec
 }
 
 // builtLayer is a layer plus where the package stream sits in its tar.
@@ -477,8 +487,67 @@ func buildLayer(ls layerSpec) builtLayer {
 	if err != nil {
 		panic(err)
 	}
+	if ls.Forge != nil {
+		served := buildLayer(layerSpec{Files: ls.Forge})
+		return builtLayer{layer: &forgedLayer{Layer: l, served: served.layer, pinned: d}, digest: d, streamOff: offs}
+	}
 	return builtLayer{layer: l, digest: d, streamOff: offs}
 }
+
+// forgedLayer reports the pinned layer's identity and serves another layer's bytes.
+type forgedLayer struct {
+	gcrv1.Layer             // Digest, DiffID, Size, MediaType of the pinned layer
+	served      gcrv1.Layer // where the bytes come from
+	pinned      gcrv1.Hash
+}
+
+func (f *forgedLayer) Compressed() (io.ReadCloser, error) {
+	rc, err := f.served.Compressed()
+	if err != nil {
+		return nil, err
+	}
+	return &verifyAtEOF{rc: rc, h: sha256.New(), want: f.pinned.Hex}, nil
+}
+
+func (f *forgedLayer) Uncompressed() (io.ReadCloser, error) {
+	c, err := f.Compressed()
+	if err != nil {
+		return nil, err
+	}
+	zr, err := gzip.NewReader(c)
+	if err != nil {
+		return nil, err
+	}
+	return &gzipOver{Reader: zr, under: c}, nil
+}
+
+type gzipOver struct {
+	*gzip.Reader
+	under io.Closer
+}
+
+func (g *gzipOver) Close() error { _ = g.Reader.Close(); return g.under.Close() }
+
+// verifyAtEOF hashes what is read and, like go-containerregistry's remote
+// verifying reader, reports a digest mismatch only when the stream ends.
+type verifyAtEOF struct {
+	rc   io.ReadCloser
+	h    hash.Hash
+	want string
+}
+
+func (v *verifyAtEOF) Read(p []byte) (int, error) {
+	n, err := v.rc.Read(p)
+	v.h.Write(p[:n])
+	if err == io.EOF {
+		if got := hex.EncodeToString(v.h.Sum(nil)); got != v.want {
+			return n, fmt.Errorf("error verifying sha256 checksum after reading the whole blob; got %q, want %q", got, v.want)
+		}
+	}
+	return n, err
+}
+
+func (v *verifyAtEOF) Close() error { return v.rc.Close() }
 
 // builtImage is an image, the layer its package stream is read from, and the
 // offset of the stream in that layer's uncompressed tar.
@@ -491,7 +560,8 @@ type builtImage struct {
 	// nested: where an extra tar entry whose BASE name is package.yaml sits in a
 	// sub-directory ("" = none). Only the root package.yaml is the package stream.
 	nested       string
-	nestedBefore bool // the nested entry precedes the root one in the tar the backend reads
+	nestedBefore bool   // the nested entry precedes the root one in the tar the backend reads
+	forged       string // "" | other-package | tampered-copy: the stream layer's bytes do not match its pinned digest
 }
 
 func assemble(layers []layerSpec) (gcrv1.Image, []builtLayer) {
@@ -630,7 +700,29 @@ func genImage(t *rapid.T, s, decoy []byte) builtImage {
 			nested = mode + ":" + content
 		}
 	}
+	// The layer holding the package stream serves bytes that do not hash to the
+	// digest the manifest pins: another valid package, or a tampered copy.
+	forged := ""
+	if valid && rapid.IntRange(0, 7).Draw(t, "forge") == 0 {
+		forged = rapid.SampledFrom([]string{"other-package", "tampered-copy"}).Draw(t, "forgeKind")
+		var ff []fileSpec
+		for _, f := range layers[ti].Files {
+			if f.Name == streamFile {
+				if forged == "other-package" {
+					f.Data = decoy
+				} else {
+					f.Data = bytes.ReplaceAll(bytes.ReplaceAll(f.Data, []byte("name: o"), []byte("name: x")), []byte("name: pkg"), []byte("name: pkx"))
+					if bytes.Equal(f.Data, s) {
+						f.Data = append(append([]byte{}, s...), []byte("# tampered\n")...)
+					}
+				}
+			}
+			ff = append(ff, f)
+		}
+		layers[ti].Forge = ff
+		valid = false
+	}
 	img, built := assemble(layers)
-	bi := builtImage{img: img, target: built[ti].digest, streamOff: built[ti].streamOff[streamFile], valid: valid, shape: shape, nested: nested, nestedBefore: nestedBefore}
+	bi := builtImage{img: img, target: built[ti].digest, streamOff: built[ti].streamOff[streamFile], valid: valid, shape: shape, nested: nested, nestedBefore: nestedBefore, forged: forged}
 	return bi
 }
